@@ -197,7 +197,30 @@ func (w *World) replayBuffer(u *UnitResult, o *Oblig) (string, bool) {
 		mv[m.Name] = m.Term
 		terms = append(terms, m.Term)
 	}
-	vals, ok := e.getValues(o, terms)
+	// prefer a counterexample with small buffers: ask for one first, fall back to whatever the solver offers
+	var vals map[string]string
+	ok := false
+	var sizePins []string
+	for _, bound := range []int{64, 4096, 65536, 0} {
+		sizePins = nil
+		if bound > 0 {
+			for _, a := range args {
+				if _, isSl := under(a.t).(*types.Slice); isSl {
+					if t, have := mv[a.name+".len"]; have {
+						sizePins = append(sizePins, fmt.Sprintf("(assert (<= %s %d))", t, bound))
+					}
+				} else if isStr(a.t) {
+					sizePins = append(sizePins, fmt.Sprintf("(assert (<= (slen %s) %d))", mv[a.name], bound))
+				}
+			}
+			if len(sizePins) == 0 {
+				continue
+			}
+		}
+		if vals, ok = e.getValues(o, terms, sizePins...); ok {
+			break
+		}
+	}
 	if !ok {
 		return "", false
 	}
@@ -251,7 +274,7 @@ func (w *World) replayBuffer(u *UnitResult, o *Oblig) (string, bool) {
 				}
 			}
 		}
-		bv, ok := e.getValues(o, append(append([]string{}, terms...), byteTerms...), pins...)
+		bv, ok := e.getValues(o, append(append([]string{}, terms...), byteTerms...), append(pins, sizePins...)...)
 		if ok {
 			bvals = bv
 		}
